@@ -290,16 +290,88 @@ func goEnv() []string {
 	return append(e, "GOFLAGS=-mod=mod", "GOPROXY=off", "GOSUMDB=off", "GOTOOLCHAIN=local", "GOWORK=off")
 }
 
-func concrete(p string) string {
+var shadowedRoutes int64
+
+func concreteWith(p, anyFill string) string {
 	parts := strings.Split(p, "/")
 	for i, s := range parts {
 		if strings.HasPrefix(s, ":") {
 			parts[i] = "val" + strconv.Itoa(i)
 		} else if strings.HasPrefix(s, "*") {
-			parts[i] = "x/y"
+			parts[i] = anyFill
 		}
 	}
 	return strings.Join(parts, "/")
+}
+
+// segKind: 0 static, 1 :param, 2 *catch-all (the documented priority order of the router).
+func segKind(s string) int {
+	switch {
+	case strings.HasPrefix(s, ":"):
+		return 1
+	case strings.HasPrefix(s, "*"):
+		return 2
+	}
+	return 0
+}
+
+func patternMatches(pattern, path string) bool {
+	ps, xs := strings.Split(pattern, "/"), strings.Split(path, "/")
+	for i, seg := range ps {
+		switch segKind(seg) {
+		case 2:
+			return i < len(xs)
+		case 1:
+			if i >= len(xs) || xs[i] == "" {
+				return false
+			}
+		default:
+			if i >= len(xs) || xs[i] != seg {
+				return false
+			}
+		}
+	}
+	return len(ps) == len(xs)
+}
+
+// morePrior reports whether pattern a wins over b for a path both match: at the first segment where
+// their kinds differ, static beats :param beats *catch-all (what a trie search with backtracking does).
+func morePrior(a, b string) bool {
+	as, bs := strings.Split(a, "/"), strings.Split(b, "/")
+	for i := 0; i < len(as) && i < len(bs); i++ {
+		if ka, kb := segKind(as[i]), segKind(bs[i]); ka != kb {
+			return ka < kb
+		}
+	}
+	return false
+}
+
+// concrete chooses a probe path for method m that, under the router's documented priority, reaches
+// m's own route and not another declared route of the same verb (a probe for "/*rest" must not look
+// like "/:id/:name"). ok=false: every candidate is claimed by a higher-priority route; not probed.
+func concrete(m Method, all []Method) (string, bool) {
+	verb := func(x Method) string {
+		if x.Verb == "Any" {
+			return "GET"
+		}
+		return x.Verb
+	}
+	for _, fill := range []string{"x/y", "deep/er/than/any/declared/route", "solo", "x/y/z"} {
+		cand := concreteWith(m.Path, fill)
+		best := ""
+		for _, o := range all {
+			if verb(o) != verb(m) && o.Verb != "Any" && m.Verb != "Any" {
+				continue
+			}
+			if patternMatches(o.Path, cand) && (best == "" || morePrior(o.Path, best)) {
+				best = o.Path
+			}
+		}
+		if best == m.Path {
+			return cand, true
+		}
+	}
+	return "", false
 }
 
 type prepared struct {
@@ -326,7 +398,9 @@ func buildAndRun(batchDir string, ps []*prepared) (map[int]*caseOut, string, err
 			if v == "Any" {
 				v = "GET"
 			}
-			fmt.Fprintf(&main, "{%q, %q}, ", v, concrete(m.Path))
+			if cp, ok := concrete(m, p.c.Methods); ok {
+				fmt.Fprintf(&main, "{%q, %q}, ", v, cp)
+			}
 		}
 		main.WriteString("})\n")
 	}
@@ -519,7 +593,12 @@ func verify(p *prepared, o *caseOut) string {
 		if v == "Any" {
 			v = "GET"
 		}
-		key := v + " " + concrete(m.Path)
+		cp, probed := concrete(m, p.c.Methods)
+		if !probed {
+			shadowedRoutes++ // every probe for this route is claimed by a higher-priority declared route
+			continue
+		}
+		key := v + " " + cp
 		trace := o.Probes[key]
 		wantTrace := append(append([]string(nil), mws...), ar.hmw, "H:"+m.Name)
 		if strings.Join(trace, ",") != strings.Join(wantTrace, ",") {
@@ -611,6 +690,11 @@ func nontrivial(c *Case) bool {
 
 func TestC16Batch(t *testing.T) {
 	rec := ev.New("programs")
+	defer func() {
+		if shadowedRoutes > 0 {
+			rec.Class("route-not-probed-every-probe-claimed-by-a-higher-priority-route", shadowedRoutes)
+		}
+	}()
 	shard, _ := ev.Shard()
 	rapid.Check(t, func(t *rapid.T) {
 		wd, _ := os.Getwd()
